@@ -174,6 +174,9 @@ class MatrixGate(raw_types.Gate):
         circuit = Circuit(*decomposed)
         u = circuit.unitary(qubit_order=qubits, qubits_that_should_be_present=qubits)
         phase_delta = linalg.phase_delta(u, self._matrix)
+        # The synthesis reproduces the matrix only up to its tolerance, so the ratio of two entries
+        # is on the unit circle only up to that tolerance; the global phase op needs a unit modulus.
+        phase_delta /= abs(phase_delta)
         # Phase delta is on the complex unit circle, so if real(phase_delta) >= 1, that means
         # no phase delta. (>1 is rounding error).
         if phase_delta.real < 1:
